@@ -459,7 +459,7 @@ impl Observer {
 //@ panics: diverge
 //@ rule R8: `self.internal.disallow_future_use(&state);` => `vx_forbidden();` x*
 //@ rule R8 re: `self\.internal\s*\.state\s*\.set\(ObserverState::Disallowed\);` => `vx_diverge();` x*
-//@ props: C10
+//@ props: C10 C13
 //@ contract:
 //@|     requires rc_count(&old(self).sentinel) <= 1, !shared_state_alive(&*old(self).internal),
 //@|     ensures false, // [dropping-the-last-clone-after-the-state-marks-the-observer-Disallowed]
